@@ -38,10 +38,11 @@ import (
 
 func init() { log.SetOutput(io.Discard) }
 
-var paths = []string{"example.com/a", "example.com/Mixed/Case", "example.com/b/v2", "rsc.io/q"}
+var paths = []string{"example.com/a", "example.com/Mixed/Case", "example.com/b/v2", "rsc.io/q", "example.com/b"} // the last one is the parent module of the third
 var versions = []string{"v1.0.0", "v1.2.3", "v1.3.0-beta.1", "v0.0.0-20200101120000-abcdef123456", "v2.0.0+incompatible", "v2.1.0", "v1.0.0-RC1", "v0.1.0",
 	// the other two pseudo-version forms, one of them marked +incompatible
-	"v1.2.4-0.20200101120000-abcdef123456", "v2.0.1-0.20190101000000-0123456789ab+incompatible", "v1.3.0-beta.1.0.20200101120000-abcdef123456"}
+	"v1.2.4-0.20200101120000-abcdef123456", "v2.0.1-0.20190101000000-0123456789ab+incompatible", "v1.3.0-beta.1.0.20200101120000-abcdef123456",
+	"v3.0.0+incompatible"}
 
 const pseudo = "v0.0.0-20200101120000-abcdef123456"
 
@@ -113,6 +114,9 @@ type Plan struct {
 	Mods    []ModVer    `json:"mods"`
 	Clients [][]Req     `json:"clients"`
 	Sched   simrt.Sched `json:"sched"`
+	// SlowDisk: every read of a file under the served directory takes this many simulated seconds (a cold or
+	// networked disk, a loaded machine)
+	SlowDisk int `json:"slow_disk,omitempty"`
 }
 
 var rawURLs = []string{"/other/x", "/mod/example.com/a", "/mod/example.com/a/@v/v1.0.0", "/mod/example.com/a/@v/v1.0.0.foo",
@@ -124,6 +128,13 @@ func genPlan(t *rapid.T, tier string) any {
 	p := &Plan{}
 	nm := rapid.IntRange(1, 5).Draw(t, "nmods")
 	seen := map[[2]int]bool{}
+	if rapid.IntRange(0, 7).Draw(t, "nested") == 0 {
+		// a module and its /v2 sub-module side by side, the parent with versions on either side of the sub-module's
+		for _, pv := range [][2]int{{4, 0}, {2, 5}, {4, len(versions) - 1}} {
+			seen[pv] = true
+			p.Mods = append(p.Mods, ModVer{Path: pv[0], Ver: pv[1], Layout: rapid.SampledFrom([]string{"txt", "txtar", "dir"}).Draw(t, "nlayout")})
+		}
+	}
 	for i := 0; i < nm; i++ {
 		m := ModVer{Path: rapid.IntRange(0, len(paths)-1).Draw(t, "path"), Ver: rapid.IntRange(0, len(versions)-1).Draw(t, "ver")}
 		if seen[[2]int{m.Path, m.Ver}] {
@@ -151,6 +162,9 @@ func genPlan(t *rapid.T, tier string) any {
 			m.Many = rapid.IntRange(60, 75).Draw(t, "nmany")
 		}
 		p.Mods = append(p.Mods, m)
+	}
+	if rapid.IntRange(0, 7).Draw(t, "slowdisk") == 0 {
+		p.SlowDisk = rapid.SampledFrom([]int{1, 2, 5, 20}).Draw(t, "slowdisksecs")
 	}
 	if rapid.IntRange(0, 3).Draw(t, "other") == 0 {
 		for _, m := range p.Mods {
@@ -524,6 +538,7 @@ func runWith(t *testing.T, p *Plan, out *simcheck.Outcome, dir, other string, ke
 	}
 
 	requests, sharedFirst, gone, slow, unasserted, otherReqs, touches := 0, 0, 0, 0, 0, 0, 0
+	slowReads := 0
 	rep := simrt.Run(t, simrt.Options{Sched: p.Sched, Strict: true, MaxSteps: 200000, KeepTrace: keep}, func(s *simrt.Sim) {
 		if len(p.Other) > 0 {
 			// an earlier server of this process, over another directory: servers are independent of each other
@@ -543,6 +558,15 @@ func runWith(t *testing.T, p *Plan, out *simcheck.Outcome, dir, other string, ke
 				}
 			}
 			srv0.Close()
+		}
+		if p.SlowDisk > 0 {
+			simos.OnOp(func(proc int, op, class, path string) {
+				if op == "read" && strings.HasPrefix(path, dir) {
+					slowReads++
+					time.Sleep(time.Duration(p.SlowDisk) * time.Second)
+				}
+			})
+			defer simos.OnOp(nil)
 		}
 		srv, err := goproxytest.NewServer(dir, "")
 		if err != nil {
@@ -676,6 +700,7 @@ func runWith(t *testing.T, p *Plan, out *simcheck.Outcome, dir, other string, ke
 	out.Count("unrelated_files_dropped_into_the_directory", int64(touches))
 	out.Count("fault_client_gave_up", int64(gone))
 	out.Count("fault_slow_client", int64(slow))
+	out.Count("fault_slow_disk_reads", int64(slowReads))
 	out.Count("requests_by_commit_hash_unasserted", int64(unasserted))
 	out.Count("clients_sharing_first_request", int64(sharedFirst))
 	out.Count("listens", simnet.Listens)
@@ -755,7 +780,7 @@ var harness = &simcheck.Harness{
 	Property: "C20",
 	Level:    "exploration",
 	Rule: "rapid draws a module directory (1-5 module versions over 4 paths incl. upper-case and /v2, 11 versions incl. pre-release, the three pseudo-version forms, +incompatible, upper-case and invalid-for-path ones; " +
-		".txt, .txtar or directory layout; .info, .mod, nested files, top-level and nested dot files, empty files, now and then a 70 KB file, files without final newline, directory modules with 60-75 further small files), optionally an earlier Server of the same process over a directory that disagrees with this one (asked for everything it stores, then closed), then 2-5 client tasks with 1-5 requests each " +
+		".txt, .txtar or directory layout; .info, .mod, nested files, top-level and nested dot files, empty files, now and then a 70 KB file, files without final newline, directory modules with 60-75 further small files; an eighth of the plans store a module beside its /v2 sub-module with versions of the parent on either side; an eighth read the served directory from a disk that takes 1-20 simulated seconds per read), optionally an earlier Server of the same process over a directory that disagrees with this one (asked for everything it stores, then closed), then 2-5 client tasks with 1-5 requests each " +
 		"(list / .info / .mod / .zip of stored and absent versions, near-miss spellings of stored versions such as v1, v1.0, v1.0.0+meta, malformed URLs, unrelated files dropped into the served directory between requests, a storm of 10-24 requests for distinct module paths that do not exist, requests by commit hash (the pseudo-version's, or the one recorded in a stored version's .info, asked of that or of another module path: 404 when it names no stored version of the path, otherwise unasserted), and client faults: a client that has given up before the handler runs (cancelled context, unasserted), slow clients whose headers or response writes take 1-120 simulated seconds against whatever time limits the server was configured with; two thirds of the clients share their first request) and a schedule; " +
 		"non-trivial = more context switches than clients+3; distinct by decision-trace hash",
 	Gen:     genPlan,
